@@ -82,6 +82,28 @@ pub fn roundtrip(payload: &[u8], fill: u64) -> Result<u64, String> {
     }
     bare!(8, 12, 16, 24, 32, 64);
 
+    // ---- constant-content values (zero / 0xff keys, default-constructed objects): content must not matter
+    for fillb in [0u8, 0xff] {
+        let z32 = SB::<32>::from([fillb; 32]);
+        formats(&format!("StackByteArray<32> all {fillb:#04x}"), &z32, &|d| same(d.as_slice(), &[fillb; 32], "bytes"), &mut n)?;
+        let z8 = SB::<8>::from([fillb; 8]);
+        formats(&format!("StackByteArray<8> all {fillb:#04x}"), &z8, &|d| same(d.as_slice(), &[fillb; 8], "bytes"), &mut n)?;
+        let kdfz: Kdf<SB<32>, SB<8>> = Kdf::from_parts(SB::from(key), z8.clone());
+        let subz: Vec<u8> = kdfz.derive_subkey_to_vec(1).map_err(de)?;
+        formats(&format!("Kdf with an all-{fillb:#04x} context"), &kdfz, &|d| {
+            let s: Vec<u8> = d.derive_subkey_to_vec(1).map_err(|e| format!("{e:?}"))?;
+            same(&s, &subz, "subkey")
+        }, &mut n)?;
+    }
+    {
+        let kp0: KeyPair<SB<32>, SB<32>> = KeyPair::new();
+        formats("KeyPair::new() (all-zero keys)", &kp0, &|d| if *d == kp0 { Ok(()) } else { Err("decoded != original".into()) }, &mut n)?;
+        let sk0: SigningKeyPair<SB<32>, SB<64>> = SigningKeyPair::new();
+        formats("SigningKeyPair::new() (all-zero keys)", &sk0, &|d| same(d.secret_key.as_slice(), sk0.secret_key.as_slice(), "secret key"), &mut n)?;
+        let zb: DryocSecretBox<SB<16>, Vec<u8>> = DryocSecretBox::from_parts(SB::from([0u8; 16]), vec![0u8; payload.len() % 7]);
+        formats("DryocSecretBox with an all-zero tag", &zb, &|d| if *d == zb { Ok(()) } else { Err("decoded != original".into()) }, &mut n)?;
+    }
+
     // ---- secret box
     let sb: DryocSecretBox<SB<16>, Vec<u8>> = DryocSecretBox::encrypt(payload, &nonce, &key);
     let want_wire = sodium::secretbox_easy(payload, &nonce, &key);
